@@ -5,7 +5,7 @@ Same model, proofs and deterministic harness as C15 (see props/c15.py).  Proved
 The full liveness statement is false of the faithful model: coq/theories/C16/Refuted.v proves
 `~ C16_full` from a recorded trace of the real pool; that schedule and every generated schedule
 are DRIVEN TO QUIESCENCE on the real code by a fair scheduler (all ready callbacks run, every
-connect / disconnect succeeds, every holder releases, timers fire for up to 60 rounds) and every
+connect / disconnect succeeds, every holder releases, timers fire; as long as anything progresses, up to 1500 rounds) and every
 acquire() must have returned - or have failed with the connect error after a connect failure on
 its database.  Starved requests are classified by a predicate over the final state; classes
 recorded in /verif/known_findings.json print KNOWN-FINDING, everything else is a VIOLATION.
@@ -45,6 +45,9 @@ def classify(st):
 
 def starved_classes(r):
     c = r.get('c16') or {}
+    if c.get('exhausted'):
+        return ['unclassified: requests still pending after 1500 fair rounds with the pool still busy (livelock?)'
+                for _ in c.get('starved', [])]
     return [classify(st) for st in c.get('starved', [])]
 
 
@@ -67,7 +70,7 @@ def run(tier):
         if c.get('starved'):
             nstarved_cases += 1
         for st in c.get('starved', []):
-            k = classify(st)
+            k = classify(st) if not c.get('exhausted') else 'unclassified: requests still pending after 1500 fair rounds with the pool still busy (livelock?)'
             classes[k] = classes.get(k, 0) + 1
             if k not in examples or len(lines[i]) < len(lines[examples[k][0]]):
                 examples[k] = (i, st)
@@ -157,8 +160,9 @@ def run(tier):
     rep.coverage['discharged'] = rep.coverage.get('discharged', 0) + (len(REFUTED) if refuted_ok else 0)
     rep.assumptions = [
         'fair scheduler of the harness: every ready callback runs, every connect / disconnect completes '
-        'successfully, every holder releases, 50 ms pass per round and every due timer fires, 60 rounds or until '
-        'the state digest repeats 6 times with nothing in flight',
+        'successfully, every holder releases, 50 ms pass per round and every due timer fires; the drain goes on while '
+        'anything progresses (up to 1500 rounds) and stops after 12 consecutive rounds in which only timers fired and '
+        'nothing is in flight, lent or ready',
         'asyncio FIFO ready queue; callers never cancel a pending acquire(); no new requests arrive during the drain',
     ]
     if not witness_starves:
